@@ -144,8 +144,9 @@ PROPS = {
     },
     "C13": {
         "flavors": ["sync", "async"],
-        "streams": [("loops", "sync", 250), ("loops", "async", 250), ("done", "async", 100), ("actions", "async", 60)],
-        "oracles": [oracles.c01_legal],
+        "streams": [("loops", "sync", 250), ("loops", "async", 250), ("done", "async", 100), ("actions", "async", 60),
+                    ("loopfaults", "async", 200), ("loopfaults", "sync", 80)],
+        "oracles": [oracles.c01_legal, oracles.c13_short_chain_not_cut],
         "hang_is_violation": True,
         "thorough_scale": 8,
     },
